@@ -165,6 +165,7 @@ def find_fns(src: str, toks=None):
     toks = toks or lex(src)
     pair = match_brackets(toks)
     out = []
+    blocks = []  # (header, open_tok, close_tok) of impl/trait blocks
     # contexts: list of (close_tok_index, header or None)
     ctx = []
     i = 0
@@ -188,6 +189,8 @@ def find_fns(src: str, toks=None):
                 elif t.text == 'mod':
                     header = None  # modules do not qualify names
                 ctx.append((pair[j], header))
+                if header:
+                    blocks.append((header, j, pair[j]))
                 i = j + 1
                 continue
             i = j + 1
@@ -248,6 +251,7 @@ def find_fns(src: str, toks=None):
             i = (bc + 1) if bo >= 0 else (k + 1)
             continue
         i += 1
+    find_fns.last_blocks = blocks
     return toks, pair, out
 
 
